@@ -377,7 +377,7 @@ def _(c):
     c.ensures(
         "post.waits_only_under_the_timeout",
         lambda fx: all(
-            len([q for q in fx[: fx.index(r)] if q[0] == "timeout.armed"]) == 1 for r in awaits_of(fx) if r[1] == "future"
+            len([q for q in fx[: pos(fx, r)] if q[0] == "timeout.armed"]) == 1 for r in awaits_of(fx) if r[1] == "future"
         ),
         on="any",
     )
@@ -427,3 +427,8 @@ def _one_command_slot(tier):
 from contracts import index as _index
 
 _index.extra("C06")(_one_command_slot)
+
+
+def pos(fx, r):
+    """position of the record r itself (identity, not equality) in the effects list"""
+    return [i for i, q in enumerate(fx) if q is r][0]
